@@ -864,7 +864,7 @@ def opt_oracle(c, o, bad, ci, hist):
                 on_b = [(lo is not None and near(xv, lo, 1e-13)) or (hi is not None and near(xv, hi, 1e-13)) for xv, (lo, hi) in zip(bvals, ob)]
                 inside = [(lo is None or xv >= lo or near(xv, lo, 1e-13)) and (hi is None or xv <= hi or near(xv, hi, 1e-13))
                           for xv, (lo, hi) in zip(bvals, ob)]
-                if st['error'][0] == 'ValueError' and any(on_b) and all(inside) and 'x0' in st['error'][1]:
+                if st['error'][0] == 'ValueError' and any(on_b) and all(inside) and any(k_ in st['error'][1] for k_ in ('x0', 'nitial guess', 'outside')):
                     hist['restart-from-bound-raise(SciPy rejects x0 on a bound)'] = hist.get('restart-from-bound-raise(SciPy rejects x0 on a bound)', 0) + 1
                     if not all(near(a, b) for a, b in zip(araw, [hx(v) for v in before['raw']])):
                         W('raise-moved-lens', si)
@@ -1066,7 +1066,7 @@ def multi_oracle(c, o, ci, hist):
             if 'error' in st:
                 ob = [(hx(b_[0]), hx(b_[1])) for b_ in o['bounds']]
                 on_b = any((lo is not None and near(xv, lo, 1e-13)) or (hi is not None and near(xv, hi, 1e-13)) for xv, (lo, hi) in zip(bvals, ob))
-                if st['error'][0] == 'ValueError' and on_b and 'x0' in st['error'][1]:
+                if st['error'][0] == 'ValueError' and on_b and any(k_ in st['error'][1] for k_ in ('x0', 'nitial guess', 'outside')):
                     hist['restart-from-bound-raise(SciPy rejects x0 on a bound)'] = hist.get('restart-from-bound-raise(SciPy rejects x0 on a bound)', 0) + 1
                     continue
                 W('exception', si, error=st['error'])
